@@ -935,3 +935,454 @@ Qed.
 Theorem tree_enc_iff_tiso t1 t2 :
   clean_tree_b t1 = true -> clean_tree_b t2 = true -> (enc t1 = enc t2 <-> tiso t1 t2).
 Proof. intros C1 C2. split; [apply enc_tiso; auto|apply tiso_enc]. Qed.
+
+(* ==================================================================================== *)
+(* 8. acyclic graphs: the identifier of a node is the encoding of its unfolding          *)
+(* ==================================================================================== *)
+
+Definition ranked (g : dg) (rank : nat -> nat) : Prop :=
+  forall v nd p, nth_error g v = Some nd -> In p (n_parents nd) -> rank p < rank v.
+
+Lemma unfold_S g k v :
+  unfold g (S k) v = match nth_error g v with
+                     | None => None
+                     | Some nd => option_map (T (label nd)) (map_opt (unfold g k) (n_parents nd))
+                     end.
+Proof. reflexivity. Qed.
+
+Lemma unfold_mono1 g k : forall v t, unfold g k v = Some t -> unfold g (S k) v = Some t.
+Proof.
+  induction k as [|k IH]; intros v t H; [discriminate|].
+  rewrite unfold_S in H. rewrite unfold_S.
+  destruct (nth_error g v) as [nd|]; auto.
+  destruct (map_opt (unfold g k) (n_parents nd)) as [cs|] eqn:E; [|discriminate].
+  assert (E' : map_opt (unfold g (S k)) (n_parents nd) = Some cs).
+  { apply Forall2_map_opt. apply map_opt_Some in E. eapply Forall2_impl'; [|exact E]. auto. }
+  rewrite E'. exact H.
+Qed.
+
+Lemma unfold_mono g k k' v t : k <= k' -> unfold g k v = Some t -> unfold g k' v = Some t.
+Proof. induction 1; auto. intros H0. apply unfold_mono1. auto. Qed.
+
+Lemma unfold_unique g k k' v t t' : unfold g k v = Some t -> unfold g k' v = Some t' -> t = t'.
+Proof.
+  intros H H'. destruct (le_ge_dec k k') as [L|L].
+  - apply (unfold_mono _ _ _ _ _ L) in H. congruence.
+  - apply (unfold_mono _ _ _ _ _ L) in H'. congruence.
+Qed.
+
+Lemma unfold_total g rank : ranked g rank -> wf g ->
+  forall k v, v < llen g -> rank v < k -> exists t, unfold g k v = Some t.
+Proof.
+  intros R W. induction k as [|k IH]; intros v Hv Hk; [lia|].
+  rewrite unfold_S. destruct (nth_error g v) as [nd|] eqn:En.
+  2:{ apply nth_error_None in En. lia. }
+  destruct (map_opt_total (unfold g k) (n_parents nd)) as [cs Hcs].
+  - intros p Hp. apply IH; [eapply W; eauto|]. specialize (R v nd p En Hp). lia.
+  - rewrite Hcs. simpl. eauto.
+Qed.
+
+Lemma is_nil_length {A B} (l : list A) (l' : list B) : llen l = llen l' -> is_nil l = is_nil l'.
+Proof. destruct l, l'; simpl; auto; discriminate. Qed.
+
+Lemma descr_fuel_unfold g rank : ranked g rank ->
+  forall k vis v t, unfold g k v = Some t -> (forall u, In u vis -> rank v < rank u) ->
+  descr_fuel g k vis v = Some (enc t).
+Proof.
+  intros R. induction k as [|k IH]; intros vis v t H Hvis; [discriminate|].
+  rewrite unfold_S in H. rewrite descr_fuel_S.
+  destruct (nth_error g v) as [nd|] eqn:En; [|discriminate].
+  destruct (mem v vis) eqn:Em.
+  { apply mem_In in Em. apply Hvis in Em. lia. }
+  destruct (map_opt (unfold g k) (n_parents nd)) as [cs|] eqn:E; [|discriminate].
+  simpl in H. injection H as H. subst t. rewrite enc_eq.
+  rewrite (is_nil_length (n_parents nd) cs) by (symmetry; eapply map_opt_length; eauto).
+  destruct (is_nil cs); auto.
+  assert (E' : map_opt (item g k (vis ++ [v])) (n_parents nd) = Some (map (fun c => enc c ++ ";") cs)).
+  { apply Forall2_map_opt. apply map_opt_Some in E.
+    assert (Hp : forall p, In p (n_parents nd) -> rank p < rank v) by (intros p Hp; eapply R; eauto).
+    clear En. induction E as [|p c ps cs' Hpc _ IHE]; simpl; constructor.
+    - unfold item. rewrite (IH _ _ _ Hpc); auto.
+      intros u Hu. apply in_app_or in Hu. destruct Hu as [Hu|[Hu|[]]].
+      + specialize (Hvis u Hu). specialize (Hp p (or_introl eq_refl)). lia.
+      + subst. apply Hp. left; auto.
+    - apply IHE. intros q Hq. apply Hp. right; auto. }
+  rewrite E'. reflexivity.
+Qed.
+
+(* on an acyclic graph every node's identifier is the bracket encoding of its unfolding *)
+Theorem descr_dag g : dag g -> wf g -> forall v, v < llen g ->
+  exists t k, unfold g k v = Some t /\ descr g v = Some (enc t).
+Proof.
+  intros [rank R] W v Hv.
+  destruct (unfold_total g rank R W (S (rank v)) v Hv) as [t Ht]; [lia|].
+  exists t, (S (rank v)). split; auto.
+  pose proof (descr_fuel_unfold g rank R _ [] v t Ht) as Hd.
+  destruct (descr_total g v W Hv) as [s Hs].
+  unfold descr in *.
+  destruct (le_ge_dec (S (rank v)) (S (llen g))) as [L|L].
+  - apply (descr_fuel_mono _ _ _ _ _ _ L) in Hd; [auto|]. intros u [].
+  - rewrite Hs. apply (descr_fuel_mono _ _ _ _ _ _ L) in Hs. rewrite Hd in Hs; [congruence|].
+    intros u [].
+Qed.
+
+Definition clean_labels (g : dg) : Prop := forall nd, In nd g -> clean (label nd) = true.
+
+Lemma unfold_clean g : clean_labels g -> forall k v t, unfold g k v = Some t -> clean_tree_b t = true.
+Proof.
+  intros C. induction k as [|k IH]; intros v t H; [discriminate|].
+  rewrite unfold_S in H. destruct (nth_error g v) as [nd|] eqn:En; [|discriminate].
+  destruct (map_opt (unfold g k) (n_parents nd)) as [cs|] eqn:E; [|discriminate].
+  simpl in H. injection H as H. subst t. simpl.
+  rewrite (C nd (nth_error_In _ _ En)). simpl.
+  apply forallb_forall. intros c Hc. apply map_opt_Some in E.
+  clear En. induction E; simpl in Hc; [contradiction|]. destruct Hc; [subst; eauto|auto].
+Qed.
+
+(* T2 (as far as proved): two single-rooted acyclic graphs whose labels avoid the delimiters
+   compare equal exactly when the unfoldings of their roots are isomorphic as rooted
+   unordered labelled trees. *)
+Theorem dag_eq_iff_unfold_iso g1 g2 r1 r2 :
+  wf g1 -> wf g2 -> dag g1 -> dag g2 -> clean_labels g1 -> clean_labels g2 ->
+  sinks g1 = [r1] -> sinks g2 = [r2] ->
+  (graph_eq g1 g2 = Some true <->
+   exists t1 t2 k1 k2, unfold g1 k1 r1 = Some t1 /\ unfold g2 k2 r2 = Some t2 /\ tiso t1 t2).
+Proof.
+  intros W1 W2 D1 D2 C1 C2 S1 S2.
+  assert (L1 : r1 < llen g1) by (apply sinks_lt; rewrite S1; left; auto).
+  assert (L2 : r2 < llen g2) by (apply sinks_lt; rewrite S2; left; auto).
+  destruct (descr_dag g1 D1 W1 r1 L1) as [t1 [k1 [U1 E1]]].
+  destruct (descr_dag g2 D2 W2 r2 L2) as [t2 [k2 [U2 E2]]].
+  assert (G : graph_eq g1 g2 = Some (set_eq_b [enc t1] [enc t2])).
+  { unfold graph_eq, sink_ids. rewrite S1, S2. simpl. rewrite E1, E2. reflexivity. }
+  rewrite G. split.
+  - intros H. injection H as H. pose proof (proj1 (set_eq_b_spec _ _) H) as H0. clear H. rename H0 into H.
+    assert (E : enc t1 = enc t2).
+    { destruct (H (enc t1)) as [H' _]. destruct H' as [H'|[]]; [left; auto|auto]. }
+    exists t1, t2, k1, k2. split; [exact U1|]. split; [exact U2|].
+    apply enc_tiso; auto.
+    + eapply unfold_clean; [exact C1|exact U1].
+    + eapply unfold_clean; [exact C2|exact U2].
+  - intros [t1' [t2' [k1' [k2' [U1' [U2' I]]]]]].
+    rewrite (unfold_unique _ _ _ _ _ _ U1 U1'), (unfold_unique _ _ _ _ _ _ U2 U2').
+    rewrite (tiso_enc _ _ I). f_equal. apply set_eq_b_spec. tauto.
+Qed.
+
+(* ==================================================================================== *)
+(* 9. the graph of a rooted tree (dg_of_tree: preorder numbering)                         *)
+(* ==================================================================================== *)
+
+Fixpoint flats (b : nat) (cs : list tree) : list node :=
+  match cs with
+  | [] => []
+  | c :: cs' => (flat b c ++ flats (b + t_size c) cs')%list
+  end.
+
+Fixpoint sizes (cs : list tree) : nat :=
+  match cs with [] => 0 | c :: cs' => t_size c + sizes cs' end.
+
+Lemma flat_eq base l cs :
+  flat base (T l cs) = mk_node "u" l "" (child_roots (S base) cs) :: flats (S base) cs.
+Proof.
+  reflexivity.
+Qed.
+
+Lemma t_size_eq l cs : t_size (T l cs) = S (sizes cs).
+Proof. reflexivity. Qed.
+
+Lemma t_size_pos t : 0 < t_size t.
+Proof. destruct t. rewrite t_size_eq. lia. Qed.
+
+Lemma flat_length : forall t base, llen (flat base t) = t_size t.
+Proof.
+  induction t as [l cs IH] using tree_ind'. intros base. rewrite flat_eq, t_size_eq. simpl. f_equal.
+  generalize (S base). induction cs as [|c cs IHcs]; intros b; simpl; auto.
+  inversion IH; subst. rewrite app_length, H1, IHcs; auto.
+Qed.
+
+Lemma flats_length cs : forall b, llen (flats b cs) = sizes cs.
+Proof. induction cs as [|c cs IH]; intros b; simpl; auto. rewrite app_length, flat_length, IH. auto. Qed.
+
+Lemma child_roots_range cs : forall b p, In p (child_roots b cs) -> b <= p < b + sizes cs.
+Proof.
+  induction cs as [|c cs IH]; intros b p H; simpl in *; [contradiction|].
+  pose proof (t_size_pos c). destruct H as [H|H]; [lia|]. apply IH in H. lia.
+Qed.
+
+(* every parent link of the node at offset i points strictly behind it, inside the block *)
+Lemma flat_parents : forall t base i nd p,
+  nth_error (flat base t) i = Some nd -> In p (n_parents nd) -> base + i < p < base + t_size t.
+Proof.
+  induction t as [l cs IH] using tree_ind'. intros base i nd p Hn Hp.
+  rewrite flat_eq in Hn. rewrite t_size_eq. destruct i as [|i]; simpl in Hn.
+  - injection Hn as Hn. subst nd. simpl in Hp. apply child_roots_range in Hp. lia.
+  - assert (G : forall cs', Forall (fun t => forall base i nd p,
+                 nth_error (flat base t) i = Some nd -> In p (n_parents nd) ->
+                 base + i < p < base + t_size t) cs' ->
+               forall b i, nth_error (flats b cs') i = Some nd -> b + i < p < b + sizes cs').
+    { clear IH Hn. induction cs' as [|c cs' IHc]; intros F b j Hj; simpl in Hj.
+      - destruct j; discriminate.
+      - inversion F; subst. simpl.
+        destruct (lt_dec j (t_size c)) as [L|L].
+        + rewrite nth_error_app1 in Hj by (rewrite flat_length; auto).
+          specialize (H1 b j nd p Hj Hp). lia.
+        + rewrite nth_error_app2 in Hj by (rewrite flat_length; lia).
+          rewrite flat_length in Hj. specialize (IHc H2 _ _ Hj). lia. }
+    specialize (G cs IH (S base) i Hn). lia.
+Qed.
+
+Lemma dg_of_tree_wf t : wf (dg_of_tree t).
+Proof.
+  intros v nd p Hv Hp. unfold dg_of_tree in *. rewrite flat_length.
+  pose proof (flat_parents t 0 v nd p Hv Hp). lia.
+Qed.
+
+Lemma dg_of_tree_ranked t : ranked (dg_of_tree t) (fun v => t_size t - v).
+Proof.
+  intros v nd p Hv Hp. unfold dg_of_tree in *.
+  pose proof (flat_parents t 0 v nd p Hv Hp). lia.
+Qed.
+
+Lemma dg_of_tree_dag t : dag (dg_of_tree t).
+Proof. eexists. apply dg_of_tree_ranked. Qed.
+
+(* the set of all parent links of the block is exactly the block without its first index *)
+Definition parents_all (g : dg) : list nat := List.concat (map n_parents g).
+
+Lemma has_child_parents_all g v : has_child g v = true <-> In v (parents_all g).
+Proof.
+  unfold has_child, parents_all. rewrite existsb_exists, in_concat. split.
+  - intros [nd [Hin Hm]]. exists (n_parents nd). split; [apply in_map; auto|apply mem_In; auto].
+  - intros [ps [Hps Hv]]. apply in_map_iff in Hps. destruct Hps as [nd [E Hnd]]. subst.
+    exists nd. split; auto. apply mem_In; auto.
+Qed.
+
+Lemma parents_all_app (a b : dg) : parents_all (a ++ b)%list = (parents_all a ++ parents_all b)%list.
+Proof. unfold parents_all. rewrite map_app, concat_app. reflexivity. Qed.
+
+Lemma flat_parents_all : forall t base j,
+  In j (parents_all (flat base t)) <-> base < j < base + t_size t.
+Proof.
+  induction t as [l cs IH] using tree_ind'. intros base j.
+  rewrite flat_eq, t_size_eq.
+  change (parents_all (mk_node "u" l "" (child_roots (S base) cs) :: flats (S base) cs))
+    with (child_roots (S base) cs ++ parents_all (flats (S base) cs))%list.
+  assert (G : forall b, In j (child_roots b cs ++ parents_all (flats b cs))%list <-> b <= j < b + sizes cs).
+  { clear base. induction cs as [|c cs IHc]; intros b.
+    - cbn. split; [intros []|lia].
+    - inversion IH; subst. specialize (IHc H2).
+      cbn [child_roots flats sizes]. rewrite parents_all_app.
+      pose proof (t_size_pos c). specialize (H1 b j). specialize (IHc (b + t_size c)).
+      rewrite in_app_iff in *. simpl. rewrite in_app_iff. rewrite H1.
+      set (A := In j (child_roots (b + t_size c) cs)) in *.
+      set (B := In j (parents_all (flats (b + t_size c) cs))) in *.
+      assert (R : (b = j \/ A) \/ b < j < b + t_size c \/ B <->
+                  (b = j \/ b < j < b + t_size c) \/ (A \/ B)) by tauto.
+      rewrite R, IHc. lia. }
+  rewrite G. lia.
+Qed.
+
+Lemma dg_of_tree_sinks t : sinks (dg_of_tree t) = [0].
+Proof.
+  unfold sinks, dg_of_tree. rewrite flat_length.
+  pose proof (t_size_pos t) as Hp. destruct (t_size t) as [|n] eqn:E; [lia|].
+  cbn [seq filter].
+  assert (H0 : has_child (flat 0 t) 0 = false).
+  { destruct (has_child (flat 0 t) 0) eqn:Eh; auto.
+    apply has_child_parents_all, flat_parents_all in Eh. lia. }
+  rewrite H0. cbn [negb]. f_equal.
+  assert (G : forall l, (forall x, In x l -> 0 < x < S n) ->
+                        filter (fun v => negb (has_child (flat 0 t) v)) l = []).
+  { induction l as [|x l IH]; intros B; simpl; auto.
+    assert (Hx : has_child (flat 0 t) x = true).
+    { apply has_child_parents_all, flat_parents_all. rewrite E. specialize (B x (or_introl eq_refl)). lia. }
+    rewrite Hx. simpl. apply IH. intros y Hy. apply B. right; auto. }
+  apply G. intros x Hx. apply in_seq in Hx. lia.
+Qed.
+
+(* the unfolding of the tree graph is the tree itself, labels rendered by description() *)
+Definition tlabel (l : string) : string := label (mk_node "u" l "" []).
+
+Fixpoint relabel (t : tree) : tree :=
+  match t with T l cs => T (tlabel l) (map relabel cs) end.
+
+(* l sits in g at offset base *)
+Definition seg (g : dg) (base : nat) (l : list node) : Prop :=
+  forall i nd, nth_error l i = Some nd -> nth_error g (base + i) = Some nd.
+
+Lemma seg_app_l g base (a b : list node) : seg g base (a ++ b)%list -> seg g base a.
+Proof.
+  intros S i nd H. apply S. rewrite nth_error_app1; auto. apply nth_error_Some. congruence.
+Qed.
+
+Lemma seg_app_r g base (a b : list node) : seg g base (a ++ b)%list -> seg g (base + llen a) b.
+Proof.
+  intros S i nd H. rewrite <- Nat.add_assoc. apply S.
+  rewrite nth_error_app2 by lia. replace (llen a + i - llen a) with i by lia. auto.
+Qed.
+
+Lemma unfold_flat : forall t g base, seg g base (flat base t) ->
+  unfold g (t_size t) base = Some (relabel t).
+Proof.
+  induction t as [l cs IH] using tree_ind'. intros g base S.
+  rewrite flat_eq in S. rewrite t_size_eq, unfold_S.
+  assert (H0 := S 0 _ eq_refl). rewrite Nat.add_0_r in H0. rewrite H0. cbn [n_parents relabel].
+  assert (S' : seg g (base + 1) (flats (Datatypes.S base) cs)).
+  { intros i nd H. replace (base + 1 + i) with (base + Datatypes.S i) by lia. apply S. exact H. }
+  replace (base + 1) with (Datatypes.S base) in S' by lia.
+  assert (G : forall k b, sizes cs <= k -> seg g b (flats b cs) ->
+                          map_opt (unfold g k) (child_roots b cs) = Some (map relabel cs)).
+  { clear S S' H0. intros k. induction cs as [|c cs IHc]; intros b Hk Sg; simpl; auto.
+    inversion IH; subst. simpl in Hk, Sg.
+    assert (Sc := seg_app_l _ _ _ _ Sg). apply seg_app_r in Sg. rewrite flat_length in Sg.
+    rewrite (unfold_mono g (t_size c) k b (relabel c)); [|lia|apply H1; auto].
+    rewrite IHc; auto. lia. }
+  rewrite (G (sizes cs) (Datatypes.S base)); auto.
+Qed.
+
+Lemma seg_self g : seg g 0 g.
+Proof. intros i nd H. exact H. Qed.
+
+Theorem descr_dg_of_tree t : descr (dg_of_tree t) 0 = Some (enc (relabel t)).
+Proof.
+  pose proof (unfold_flat t (dg_of_tree t) 0 (seg_self _)) as U.
+  pose proof (descr_fuel_unfold _ _ (dg_of_tree_ranked t) _ [] 0 _ U) as D.
+  unfold descr. eapply descr_fuel_mono; [|apply D; intros u []].
+  unfold dg_of_tree. rewrite flat_length. lia.
+Qed.
+
+(* T2 on rooted trees as mathematical objects: the graphs of two trees compare equal
+   exactly when the trees are isomorphic *)
+Theorem tree_eq_iff_iso t1 t2 :
+  clean_tree_b (relabel t1) = true -> clean_tree_b (relabel t2) = true ->
+  (graph_eq (dg_of_tree t1) (dg_of_tree t2) = Some true <-> tiso (relabel t1) (relabel t2)).
+Proof.
+  intros C1 C2.
+  assert (G : graph_eq (dg_of_tree t1) (dg_of_tree t2)
+              = Some (set_eq_b [enc (relabel t1)] [enc (relabel t2)])).
+  { unfold graph_eq, sink_ids. rewrite !dg_of_tree_sinks. simpl.
+    rewrite !descr_dg_of_tree. reflexivity. }
+  rewrite G. split.
+  - intros H. injection H as H. pose proof (proj1 (set_eq_b_spec _ _) H) as H0.
+    apply enc_tiso; auto.
+    destruct (H0 (enc (relabel t1))) as [H' _]. destruct H' as [H'|[]]; [left; auto|auto].
+  - intros I. rewrite (tiso_enc _ _ I). f_equal. apply set_eq_b_spec. tauto.
+Qed.
+
+(* node names are non-empty and avoid the delimiter characters *)
+Fixpoint names_ok_b (t : tree) : bool :=
+  match t with T l cs => negb (String.eqb l "") && clean l && forallb names_ok_b cs end.
+
+Lemma tlabel_nonempty l : l <> "" -> tlabel l = "n_" ++ l.
+Proof. intros H. unfold tlabel, label. simpl. destruct (String.eqb_spec l ""); [contradiction|reflexivity]. Qed.
+
+Lemma names_ok_unfold l cs :
+  names_ok_b (T l cs) = true -> l <> "" /\ clean l = true /\ forall c, In c cs -> names_ok_b c = true.
+Proof.
+  simpl. rewrite !andb_true_iff. intros [[H1 H2] H3]. repeat split; auto.
+  - intros E. subst. discriminate.
+  - apply forallb_forall. exact H3.
+Qed.
+
+Lemma names_ok_clean : forall t, names_ok_b t = true -> clean_tree_b (relabel t) = true.
+Proof.
+  induction t as [l cs IH] using tree_ind'. intros H.
+  destruct (names_ok_unfold _ _ H) as [Hne [Hc Hcs]].
+  cbn [relabel clean_tree_b]. rewrite (tlabel_nonempty l Hne).
+  change (clean ("n_" ++ l)) with (clean l). rewrite Hc. cbn [andb].
+  rewrite forallb_forall. intros c' Hc'. apply in_map_iff in Hc'. destruct Hc' as [c [E Hin]]. subst.
+  rewrite Forall_forall in IH. apply IH; auto.
+Qed.
+
+Lemma Forall2_map_both {A B} (R : B -> B -> Prop) (f : A -> B) l l' :
+  Forall2 R (map f l) (map f l') <-> Forall2 (fun a b => R (f a) (f b)) l l'.
+Proof.
+  split.
+  - revert l'. induction l as [|a l IH]; intros [|b l'] H; simpl in H; inversion H; subst; constructor; auto.
+  - induction 1; simpl; constructor; auto.
+Qed.
+
+Lemma tiso_relabel_l : forall t1 t2, tiso t1 t2 -> tiso (relabel t1) (relabel t2).
+Proof.
+  intros t1 t2 h. induction h as [l cs cs' cs'' P F IH] using tiso_ind'.
+  simpl. apply (tiso_node _ _ _ (map relabel cs'')).
+  - apply Permutation_map. exact P.
+  - apply Forall2_map_both. exact IH.
+Qed.
+
+Lemma tiso_relabel_r : forall t1, names_ok_b t1 = true -> forall t2, names_ok_b t2 = true ->
+  tiso (relabel t1) (relabel t2) -> tiso t1 t2.
+Proof.
+  induction t1 as [l1 cs1 IH] using tree_ind'. intros N1 [l2 cs2] N2 H.
+  destruct (names_ok_unfold _ _ N1) as [Hne1 [_ Hcs1]].
+  destruct (names_ok_unfold _ _ N2) as [Hne2 [_ Hcs2]].
+  cbn [relabel] in H. rewrite (tlabel_nonempty _ Hne1), (tlabel_nonempty _ Hne2) in H.
+  inversion H as [l cs cs' cs'' P F]. subst.
+  apply Permutation_sym, Permutation_map_inv in P. destruct P as [cs2' [E P]]. subst cs''.
+  apply (tiso_node _ cs1 cs2 cs2' P).
+  apply (proj1 (Forall2_map_both tiso relabel cs1 cs2')) in F.
+  assert (N2' : forall c, In c cs2' -> names_ok_b c = true).
+  { intros c Hc. apply Hcs2. eapply Permutation_in; [apply Permutation_sym; exact P|exact Hc]. }
+  clear H P Hcs2 N1 N2. revert cs2' F N2'.
+  induction cs1 as [|c cs1 IHc]; intros cs2' F N2'; inversion F as [|a b la lb Hab Hrest]; subst; constructor.
+  - inversion IH as [|? ? Hc Hr]; subst. apply Hc; auto.
+    + apply Hcs1. left; auto.
+    + apply N2'. left; auto.
+  - inversion IH as [|? ? Hc Hr]; subst. apply IHc; auto.
+    + intros x Hx. apply Hcs1. right; auto.
+    + intros x Hx. apply N2'. right; auto.
+Qed.
+
+(* T2 for rooted trees whose node names are non-empty and avoid ( ) / ; *)
+Theorem tree_eq_iff_iso_names t1 t2 :
+  names_ok_b t1 = true -> names_ok_b t2 = true ->
+  (graph_eq (dg_of_tree t1) (dg_of_tree t2) = Some true <-> tiso t1 t2).
+Proof.
+  intros N1 N2.
+  rewrite (tree_eq_iff_iso t1 t2 (names_ok_clean _ N1) (names_ok_clean _ N2)).
+  split; [apply tiso_relabel_r; auto|apply tiso_relabel_l].
+Qed.
+
+(* ------------------------------------------------------------------------------------ *)
+(* the independent canonical form used by the check: equal canonical forms imply          *)
+(* isomorphism                                                                            *)
+(* ------------------------------------------------------------------------------------ *)
+
+Lemma tinsert_perm a l : Permutation (tinsert a l) (a :: l).
+Proof.
+  induction l as [|b l IH]; simpl; auto.
+  destruct (tcmp a b); auto. rewrite IH. apply perm_swap.
+Qed.
+
+Lemma tsort_perm l : Permutation (tsort l) l.
+Proof. induction l as [|a l IH]; simpl; auto. rewrite tinsert_perm. auto. Qed.
+
+Lemma tiso_canon : forall t, tiso t (canon t).
+Proof.
+  induction t as [l cs IH] using tree_ind'. simpl.
+  apply (tiso_node l cs _ (map canon cs)).
+  - apply tsort_perm.
+  - induction IH; simpl; constructor; auto.
+Qed.
+
+Lemma tcmp_eq : forall a b, tcmp a b = Eq -> a = b.
+Proof.
+  induction a as [la ca IH] using tree_ind'. intros [lb cb] H. cbn [tcmp] in H.
+  destruct (String.compare la lb) eqn:E; try discriminate.
+  apply String.compare_eq_iff in E. subst lb. f_equal.
+  revert cb H. induction ca as [|x ca IHc]; intros [|y cb] H; try discriminate; auto.
+  inversion IH; subst.
+  destruct (tcmp x y) eqn:Exy; try discriminate.
+  apply H2 in Exy. subst y. f_equal. apply IHc; auto.
+Qed.
+
+Theorem canon_eqb_sound t1 t2 :
+  clean_tree_b t1 = true -> clean_tree_b t2 = true ->
+  canon_eqb (canon t1) (canon t2) = true -> tiso t1 t2.
+Proof.
+  intros C1 C2 H. unfold canon_eqb in H.
+  destruct (tcmp (canon t1) (canon t2)) eqn:E; try discriminate.
+  apply tcmp_eq in E.
+  apply enc_tiso; auto.
+  rewrite (tiso_enc _ _ (tiso_canon t1)), (tiso_enc _ _ (tiso_canon t2)), E. reflexivity.
+Qed.
